@@ -152,6 +152,9 @@ def chk_subspace(c):
     for nm, x in _args(rng, n)[:1]:
         _close(S.T.dot(x), D.T.dot(x), 'transpose of SubspaceOperator')
         _close(S.T.T.dot(x), D.dot(x), 'double transpose of SubspaceOperator')
+        if not SKIP_H:
+            _close(S.H.dot(x), D.T.dot(x), 'adjoint of SubspaceOperator')
+            _close(S.H.H.dot(x), D.dot(x), 'double adjoint of SubspaceOperator')
 
 
 def chk_solver(c):
@@ -167,7 +170,11 @@ def chk_solver(c):
         B = A @ A.T + n * np.eye(n)
         kw = {'spd': True}
     else:
-        B = A @ A.T + n * np.eye(n)
+        # symmetric, not positive definite: diagonally dominant with diagonal entries of alternating sign (indefinite, invertible)
+        B = (A + A.T) / 2.0
+        np.fill_diagonal(B, 0.0)
+        d = (np.abs(B).sum(axis=1) + 1.0) * np.array([(-1.0) ** i for i in range(n)])
+        B = B + np.diag(d) if n > 1 or c['seed'] % 2 else B + np.diag(np.abs(d))
         kw = {'symmetric': True}
     Bop = scipy.sparse.csr_matrix(B) if c['sparse'] else B
     S = operators.make_solver(Bop, **kw)
@@ -209,7 +216,12 @@ def chk_fastdiag(c):
         for F in fac[1:]:
             T = np.kron(T, F)
         A = A + T
-    S = solvers.fastdiag_solver(KM)
+    if c.get('sparse'):
+        # the 1D assembly routines return sparse matrices: they are valid factors, too
+        import scipy.sparse
+        S = solvers.fastdiag_solver([(scipy.sparse.csr_matrix(K), scipy.sparse.csr_matrix(M)) for (K, M) in KM])
+    else:
+        S = solvers.fastdiag_solver(KM)
     for nm, x in _args(rng, A.shape[0]):
         _close(A @ S.dot(x), x, 'fastdiag_solver applied to a %s' % nm, tol=1e-8)
 
@@ -297,6 +309,7 @@ def generate(tier, rng):
         yield 'csr', {'seed': rep, 'shape': [4 + rep % 3, 3 + rep % 4], 'bounds': [[0, 4 + rep % 3], [1, 3], [2, 2], [0, 1]][rep % 4], 'rows': [[0, 2, 1], [3], [], [1, 1, 0]][rep % 4]}
     for sp in ([(2, 3)], [(1, 4), (2, 3)], [(2, 3), (3, 2)], [(1, 2), (2, 2), (1, 3)]):
         yield 'fastdiag', {'seed': len(sp), 'space': sp}
+        yield 'fastdiag', {'seed': len(sp), 'space': sp, 'sparse': True}
 
 
 if __name__ == '__main__':
